@@ -28,6 +28,12 @@ void harness(void) {
 #elif defined(VF_FN_mod_reduce)
 	VF_ASSUME(M.digits >= 2 || (M.digits == 1 && M.num[0] >= 2));
 	e = bn_mod_reduce(a, m, NULL);
+#elif defined(VF_FN_mod_exp_digit)
+	e = bn_mod_exp_digit(a, k, m, NULL);
+#elif defined(VF_FN_mod_exp)
+	e = bn_mod_exp(a, &B, m, NULL);
+#elif defined(VF_FN_mod_div)
+	e = bn_mod_div(a, &B, m, NULL);
 #else
 #error "select a function with -DVF_FN_<name>"
 #endif
